@@ -12,7 +12,7 @@
 (* drift  (specification/implementation mismatch) and printed at the end.  *)
 (* Many traces are concatenated in one file; an "Init" line resets.        *)
 (***************************************************************************)
-EXTENDS Core, Store, CodecCases, ProxyCases, NodeGate, Json, IOUtils
+EXTENDS Core, Store, CodecCases, ProxyCases, NodeGate, SelectorOps, Json, IOUtils
 
 TraceFile == IOEnv.TRACE_FILE
 Trace == ndJsonDeserialize(TraceFile)
@@ -1293,6 +1293,17 @@ TraceApiRead ==
     /\ stats' = Bump(stats, "lines")
     /\ UNCHANGED << pst, D, nodes, dlv, sto, psto, rrv, meta, cev, ctx, base, last, pools, lostSet, evals, fames, ref, sub, drift >>
 
+\* the peer a node would gossip with next (peer_selector.go; PeerSelector.tla): one of
+\* its current peers, never itself, not the peer of the exchange just finished unless
+\* that is the only one.  Not one of the listed properties: reported as drift.
+TraceSelect ==
+    /\ Line.a = "Select"
+    /\ LET x == Line.x
+           F == Checks("-", "Conf_Selector", PickOK(SeqToSet(x.peers), x.self, x.last, Line.o.picked))
+       IN  drift' = AddCapped(drift, F)
+    /\ stats' = Bump(stats, "lines")
+    /\ UNCHANGED << pst, D, nodes, dlv, sto, psto, rrv, meta, cev, ctx, base, last, pools, lostSet, evals, fames, ref, sub, viol >>
+
 TraceNoop ==
     /\ Line.a \in { "SyncFail", "Note", "StateChange" }
     /\ stats' = Bump(stats, "lines")
@@ -1301,7 +1312,7 @@ TraceNoop ==
 TraceStep ==
     /\ l <= NLines
     /\ l' = l + 1
-    /\ \/ TraceReset \/ TraceCreate \/ TraceSubmit \/ TraceSync \/ TraceNoop \/ TraceApiRead
+    /\ \/ TraceReset \/ TraceCreate \/ TraceSubmit \/ TraceSync \/ TraceNoop \/ TraceApiRead \/ TraceSelect
        \/ TraceQuorum \/ TraceQuorumAccept \/ TraceMedian \/ TraceHgInsert \/ TraceInstance
        \/ TraceNodeUp \/ TraceAddItx \/ TraceOpDone \/ TraceOffer \/ TraceLiveCheck \/ TraceFFOffer
        \/ TraceRpc \/ TraceStateRpc \/ TraceHeartbeat \/ TraceBytes
